@@ -118,7 +118,7 @@ func propC19(c *ctx) error {
 		for k := 0; k < nf; k++ {
 			d := dirs[r.n(len(dirs))]
 			// (names that begin with a dot are names like any other: .gitkeep beside templates, .partial.html IS a template)
-			name := r.pick([]string{"index", "a", "b", "main", "z", ".gitkeep", ".partial", ".#index", "-", "0"}) + r.pick([]string{".html", ".html", ".html", ".txt", ".htm", ".html.bak", ".html"})
+			name := r.pick([]string{"index", "a", "b", "main", "z", ".gitkeep", ".partial", ".#index", "-", "0"}) + r.pick([]string{".html", ".html", ".html", ".txt", ".htm", ".html.bak", ".html", ".tpl.html"})
 			p := strings.TrimPrefix(d+"/"+name, "/")
 			isDir := false
 			for _, dd := range dirs {
@@ -222,7 +222,12 @@ func propC19(c *ctx) error {
 		// an UNANCHORED pattern without metacharacters accepts every path that CONTAINS it (start, middle or end)
 		reLit := regexp.MustCompile(r.pick([]string{`a/`, `part/`, `index`, `\.html`, `html`, `b`, `/`, `main\.html`, `z\.h`}))
 		modelSuffix := ".html"
+		// the suffix is any string the path may end in: several extensions, no dot, one letter, the empty string
+		sfx := r.pick([]string{".html", ".html", ".tpl.html", "html", "", ".html.bak", "l", "x.html", "/index.html"})
 		switch matcherKind {
+		case "suffix":
+			match = func(p string) bool { return strings.HasSuffix(p, sfx) }
+			modelSuffix = sfx
 		case "regexp-literal":
 			match = func(p string) bool { return reLit.MatchString(p) }
 			modelSuffix = ""
@@ -244,7 +249,7 @@ func propC19(c *ctx) error {
 			defer func() { panicked = recover() }()
 			switch matcherKind {
 			case "suffix":
-				perr = m.ParseWithSuffix(ifs, ".html")
+				perr = m.ParseWithSuffix(ifs, sfx)
 			case "regexp":
 				perr = m.ParseWithRegexp(ifs, regexp.MustCompile(`\.html$`))
 			case "regexp-top":
@@ -376,7 +381,7 @@ func propC19(c *ctx) error {
 				nmatch++
 			}
 		}
-		cs := J{"sub": sub, "files": files, "dirs": dirs, "fault": faultKind, "fault_at": faultAt, "matcher": matcherKind, "literal_pattern": reLit.String()}
+		cs := J{"sub": sub, "files": files, "dirs": dirs, "fault": faultKind, "fault_at": faultAt, "matcher": matcherKind, "literal_pattern": reLit.String(), "suffix": sfx}
 		res.eval(jstr(cs), nmatch >= 2, cs)
 		res.count("fault_" + faultKind)
 		res.count("result_" + orOK(gotErr))
